@@ -321,6 +321,13 @@ def decide_all(obls, tier, workers=16, log=None, models=True, on_sat=None, stop_
             skipped[0] += 1
             return
         r = None
+        if o["theory"] == "fp" and o.get("smt_abs"):
+            # the identity with the common sub-terms of both sides abstracted away: `unsat` discharges the obligation
+            ab = {"smt": o["smt_abs"], "vars": [], "theory": "fp", "kind": "claim"}
+            rab = solve_one(ab, 20, want_model=False)
+            if rab["verdict"] == "unsat":
+                o.update({"verdict": "unsat", "solver": (rab["solver"] or "") + "(common sub-terms abstracted)", "seconds": o.get("seconds", 0) + rab["seconds"], "model": {}, "solver_log": rab["log"]})
+                return
         quick_fp = None
         if o["theory"] == "fp" and o.get("smt_real") and on_sat is not None:
             # most Float32 identities of a correct tree are refuted in well under 3 s; only the stubborn ones get candidates
